@@ -64,3 +64,16 @@ func TestRegressC18Counts(t *testing.T) {
 		}
 	}
 }
+
+func TestRegressC17ParOrTopOfKeySpace(t *testing.T) {
+	a, b := roaring64.New(), roaring64.New()
+	for k := uint64(0xFFFFFFEF); k <= 0xFFFFFFFF; k++ {
+		a.Add(k<<32 + 1)
+		b.Add(k<<32 + 2)
+	}
+	for _, w := range []int{1, 2, 3, 4, 7} {
+		if r := roaring64.ParOr(w, a, b); r.GetCardinality() != 34 || !r.Equals(roaring64.Or(a, b)) {
+			t.Fatalf("roaring64.ParOr(%d) over the top 17 buckets has %d values, want 34", w, r.GetCardinality())
+		}
+	}
+}
